@@ -11,7 +11,9 @@ claimed = [c['property_id'] for c in json.load(open(V + '/MANIFEST.json'))['chec
 registered = set(claimed)
 env = dict(os.environ, GOFLAGS='-mod=mod', GOPROXY='off', GOSUMDB='off', GOTOOLCHAIN='local')
 env.pop('GOWORK', None)
-subprocess.run([V + '/setup.sh'], check=True, env=env)
+BIN = os.environ.get('CECHECK_BIN', V + '/bin/cecheck')
+if 'CECHECK_BIN' not in os.environ:
+    subprocess.run([V + '/setup.sh'], check=True, env=env)
 jobs = []
 for d in sorted(glob.glob(V + '/seeded/*')):
     m = json.load(open(d + '/meta.json'))
@@ -34,7 +36,7 @@ def run(job):
             a = subprocess.run(['patch', '-p1', '-s', '-f', '-i', patch], cwd=tmp, capture_output=True, text=True, stdin=subprocess.DEVNULL)
             if a.returncode != 0:
                 return (name, prop, 'PATCH-FAILS', '')
-        o = subprocess.run([V + '/bin/cecheck', prop, '--repo', tmp, '--verif', tmp + '/.verif-out'], capture_output=True, text=True, env=env)
+        o = subprocess.run([BIN, prop, '--repo', tmp, '--verif', tmp + '/.verif-out'], capture_output=True, text=True, env=env)
         first = ''
         for l in o.stdout.splitlines():
             if not l.startswith('KNOWN-FINDING') and not l.startswith('VIOLATION') and ': C' in l:
@@ -64,7 +66,7 @@ def run_in(job, tmp):
     a = subprocess.run(['patch', '-p1', '-s', '-f', '-i', patch], cwd=tmp, capture_output=True, text=True, stdin=subprocess.DEVNULL)
     if a.returncode != 0:
         return (name, prop, 'PATCH-FAILS', a.stdout[:100], [])
-    o = subprocess.run([V + '/bin/cecheck', 'ALL', '--repo', tmp, '--verif', tmp + '/.verif-out'], capture_output=True, text=True, env=env)
+    o = subprocess.run([BIN, 'ALL', '--repo', tmp, '--verif', tmp + '/.verif-out'], capture_output=True, text=True, env=env)
     import re
     firsts, detected, broken = {}, [], False
     for l in o.stdout.splitlines():
